@@ -157,6 +157,14 @@ def resolve_syntatic_sugar(a: ast.AST) -> ast.AST:
                     # We have a dataclass. Turn it into a dictionary
                     signature = inspect.signature(a.func.value)  # type: ignore
                     sig_arg_names = [p.name for p in signature.parameters.values()]
+                    keyword_only = [
+                        p.name for p in signature.parameters.values() if p.kind == p.KEYWORD_ONLY
+                    ]
+                    if len(a.args) > len(sig_arg_names) - len(keyword_only):
+                        raise ValueError(
+                            f"Too many positional arguments for dataclass {a.func.value} (the fields "
+                            f"{keyword_only} are keyword-only) - {ast.unparse(node)}."
+                        )
 
                     return self.convert_call_to_dict(a, node, sig_arg_names)
 
